@@ -700,11 +700,17 @@ fn run(ctx: &mut Ctx) {
                                         return Outcome::violation("large-golden/new-failed", format!("Golden::new on a readable 40 KiB file: {:?}", other.map(|r| r.map(|_| ()).map_err(|e| e.to_string()))));
                                     }
                                 };
+                                w.age();
+                                let before = w.observe();
                                 let ok = fw::guarded(|| g.assert(got)).is_ok();
+                                let after_obs = w.observe();
                                 let after = std::fs::read(&w.path).ok();
                                 std::env::remove_var(VAR);
                                 match env.mode() {
                                     Mode::NoUpdate => {
+                                        if let Some(what) = touched(&before, &after_obs) {
+                                            return Outcome::violation(format!("large-golden/wrote-without-update/{}/{}", what, gname), format!("UPDATE_GOLDEN {}: assert(got = {}) on a 40 KiB golden changed the directory: before {:?}, after {:?}", env.name(), gname, before.listing, after_obs.listing));
+                                        }
                                         if ok != *equal {
                                             return Outcome::violation(format!("large-golden/{}/{}", if ok { "accepted-different-content" } else { "rejected-equal-content" }, gname), format!("golden of {} bytes ({}), got = {} ({} bytes): assert {}", file_text.len(), if crlf { "CRLF" } else { "LF" }, gname, got.len(), if ok { "returned" } else { "panicked" }));
                                         }
@@ -726,6 +732,81 @@ fn run(ctx: &mut Ctx) {
             }
         }
         ctx.fact("family_e_cases", ne);
+    }
+    // family S: EVERY string of length <= 4 over {a, CR, LF} as the golden's content (121) x UPDATE_GOLDEN {unset, "", "1"};
+    // inside a case EVERY such string as `got` (121), each on a freshly written golden: assert returns exactly for
+    // got == content with each CRLF pair replaced by LF (one pass: the statement's definition, CR CR LF -> CR LF),
+    // nothing on disk changes without update mode, the file holds `got` with it
+    {
+        let mut all: Vec<String> = vec![String::new()];
+        let mut layer: Vec<String> = vec![String::new()];
+        for _ in 0..4 {
+            let mut next = vec![];
+            for s in &layer {
+                for ch in ['a', '\r', '\n'] {
+                    let mut t = s.clone();
+                    t.push(ch);
+                    next.push(t);
+                }
+            }
+            all.extend(next.iter().cloned());
+            layer = next;
+        }
+        let mut ns = 0u64;
+        for content in &all {
+            for env in [Env::Unset, Env::Empty, Env::One] {
+                ns += 1;
+                if !ctx.next_is_mine() {
+                    ctx.skip_cases(1);
+                    continue;
+                }
+                let root = root.clone();
+                let all = &all;
+                ctx.case(
+                    || format!("golden content {:?}; UPDATE_GOLDEN {}; assert(got) for every string of length <= 4 over {{a, CR, LF}}", content, env.name()),
+                    move || {
+                        let want = norm1(content);
+                        let w = World::new(&root, fresh_serial());
+                        for got in all {
+                            std::fs::write(&w.path, content.as_bytes()).expect("harness bug: write");
+                            env.apply();
+                            let p = w.path.clone();
+                            let g = match fw::guarded(move || Golden::new(p)) {
+                                Ok(Ok(g)) => g,
+                                other => {
+                                    std::env::remove_var(VAR);
+                                    return Outcome::violation("short-strings/new-failed", format!("Golden::new on a readable file {:?}: {:?}", content, other.map(|r| r.map(|_| ()).map_err(|e| e.to_string()))));
+                                }
+                            };
+                            w.age();
+                            let before = w.observe();
+                            let ok = fw::guarded(|| g.assert(got)).is_ok();
+                            let after = w.observe();
+                            std::env::remove_var(VAR);
+                            match env.mode() {
+                                Mode::NoUpdate => {
+                                    if let Some(what) = touched(&before, &after) {
+                                        return Outcome::violation(format!("short-strings/wrote-without-update/{}", what), format!("golden {:?}, got {:?}, UPDATE_GOLDEN {}", content, got, env.name()));
+                                    }
+                                    if ok != (*got == want) {
+                                        return Outcome::violation(format!("short-strings/{}/{}", if ok { "accepted-different-content" } else { "rejected-equal-content" }, diff_class(content, got)), format!("golden bytes {:?} (CRLF-normalised: {:?}), got {:?}: assert {}", content, want, got, if ok { "returned" } else { "panicked" }));
+                                    }
+                                }
+                                _ => {
+                                    if !ok || after.bytes.as_deref() != Some(got.as_bytes()) {
+                                        return Outcome::violation(format!("short-strings/update-mode/{}", if ok { "file-differs-from-got" } else { "assert-panicked" }), format!("golden {:?}, got {:?}: file afterwards {:?}", content, got, after.bytes.as_ref().map(|b| String::from_utf8_lossy(b).to_string())));
+                                    }
+                                }
+                            }
+                        }
+                        Outcome::pass(format!("short-strings/env-{}/{}", env.name(), if content.contains("\r\n") { "with-crlf" } else if content.contains('\r') { "with-lone-cr" } else { "lf-only" }))
+                    },
+                );
+                ctx.count("transitions", all.len() as u64);
+            }
+        }
+        ctx.fact("family_s_cases", ns);
+        ctx.fact("family_s_asserts", ns * all.len() as u64);
     }
     ctx.fact("family_a_cases", family_a_cases);
     ctx.fact("family_b_cases", serial - family_a_cases);
